@@ -11,5 +11,6 @@ Extraction "model_oom.ml" errno
   no_fault single_fault double_fault mkast alloc free new_double_s printbuf_new lh_table_new new_object
   object_add object_add_orig arr_add attach_array
   pb_new pb_step pb_reset ser_ops run_ops pb_text serialize_fallible serialize_orig ser_text
+  mklpb lpb_step sprintbuf sprintbuf_flat
   AlModel.al_new2 AlModel.al_step AlModel.al_add
   StrModel.new_string_len StrModel.str_step StrModel.get_string StrModel.live_count.
